@@ -202,6 +202,56 @@ pub fn run(args: &Args) -> i32 {
         judge(run, &banks, ts, if ok { Some((vec![], want)) } else { None }, json!({"board": board, "chip": chip, "channels": 79}), loc);
     });
 
+    // 4b. wires and pads together (the two calibrations must not leak into each other)
+    let mixed_runs = [9277u32, 10418, 11084, 11500, u32::MAX];
+    rep.run("mixed-events", mixed_runs.len() as u64 * 8 * 2 * 2, 120, true, "5 run classes x 8 (Alpha16 board, PadWing board/chip) combinations x {wire banks first, pad banks first} x {one wire, two wires}: TRG + wire banks + one PWB message with 5 channels; all slots compared", |idx, loc| {
+        let d = unrank(idx, &[8, 2, 2, mixed_runs.len() as u64]);
+        let run = mixed_runs[d[3] as usize];
+        let k = d[0] as usize;
+        let ts = 900 + idx as u32;
+        let mut wbanks: Banks = Vec::new();
+        let mut want_w = Vec::new();
+        let mut ok = true;
+        for j in 0..=(d[2] as usize) {
+            let (board, ch) = (A16_BOARDS[(k + j) % 8].0, ((k * 5 + j * 11) % 32) as u8);
+            let raw = wire_samples(ch, WIRE_NS + 7 * j, j as u64);
+            wbanks.push((wire_bank_name(board, ch), wire_packet(board, ch, &raw)));
+            match wire_slot(run, board, ch).and_then(|w| wire_cal(run, w).map(|c| (w, c))) {
+                Some((w, (bl, g, dl))) => {
+                    if let Some(s) = expected_signal(&raw, bl, g, dl) {
+                        want_w.push((w, s));
+                    }
+                }
+                None => ok = false,
+            }
+        }
+        let (pboard, chip) = (PWB_BOARDS[(k * 9 + 3) % 71].0, (k % 4) as u8);
+        let chans: Vec<(u16, Vec<i16>)> = [4u16, 17, 16, 40, 79].iter().map(|&ro| (ro, pad_samples(ro, PAD_NS as usize, if ro == 40 { 1 } else { 0 }))).collect();
+        let pbanks = pwb_banks(pboard, chip, &pwb_payload(pboard, chip, PAD_NS, &chans), 8192);
+        let mut want_p = Vec::new();
+        for (ro, raw) in &chans {
+            if let Some(RefPwbChan::Pad(ch)) = ref_readout_to_chan(*ro) {
+                match pad_slot(run, pboard, chip, ch).and_then(|p| pad_cal(run, p).map(|c| (p, c))) {
+                    Some((p, (bl, g, dl))) => {
+                        if let Some(s) = expected_signal(raw, bl, g, dl) {
+                            want_p.push((p, s));
+                        }
+                    }
+                    None => ok = false,
+                }
+            }
+        }
+        let mut banks: Banks = vec![("ATAT".into(), trg_packet(ts))];
+        if d[1] == 0 {
+            banks.extend(wbanks);
+            banks.extend(pbanks);
+        } else {
+            banks.extend(pbanks);
+            banks.extend(wbanks);
+        }
+        judge(run, &banks, ts, if ok { Some((want_w, want_p)) } else { None }, json!({"mixed": true, "pads_first": d[1] == 1, "pad_board": pboard, "chip": chip}), loc);
+    });
+
     // 5. every single inconsistency at every bank position (simulation run)
     let run_sim = u32::MAX;
     let base = || -> (Banks, Vec<(usize, Vec<f64>)>, Vec<((usize, usize), Vec<f64>)>) {
